@@ -7,6 +7,7 @@ key(f)  = index of f                                  if as_list
         = style(trim(f.id))                           trim: one trailing "_" is stripped iff enabled and the id ends
                                                       with exactly one; style: name_style conversion of snake_case ids
 present(f) = not skip(f) and only(f)                  [skip > only]
+dumping: a field whose id starts with "_" and that has no explicit map entry is skipped (extended-usage.rst, private fields)
 """
 from __future__ import annotations
 
@@ -64,7 +65,7 @@ def generated_key(f: FieldSpec, *, trim=True, style=None):
 
 
 def layout(fields, *, map=None, as_list=False, trim=True, style=None, skip=(), only=None, extra_in="skip",  # noqa: A002
-           map_func=None):
+           map_func=None, dumping=False):
     if map_func is not None:
         # documented: a map element may be a function; `...` in its result stands for the key that would be generated
         map = dict(map or {})  # noqa: A001
@@ -93,6 +94,10 @@ def layout(fields, *, map=None, as_list=False, trim=True, style=None, skip=(), o
             continue
         if as_list:
             paths[f.name] = (idx,)
+            continue
+        if dumping and f.name.startswith("_"):
+            # documented ("Private fields dumping"): by default fields starting with an underscore are skipped at dumping
+            paths[f.name] = None
             continue
         paths[f.name] = (generated_key(f, trim=trim, style=style),)
     return Layout(paths=paths, extra_in=extra_in, crown=build_crown(paths))
